@@ -518,9 +518,9 @@ do_frame(Ctx& x, char who)
     free(buf);
 }
 
-// A second simulated camera, opened from the same driver, used by caller B only.  It is a bystander: no
-// oracle looks at its frames; the first camera's oracles go on unchanged, so anything the two instances
-// share (a trigger latch, a frame counter, a buffer) shows there.
+// A second simulated camera, opened from the same driver, used by caller B only (its calls never overlap).
+// The first camera's oracles go on unchanged and the second camera's lock-step frames obey the same id and
+// trigger rules, so anything the two instances share (a trigger latch, a frame counter, a buffer) shows.
 void
 do_other(Ctx& x, uint8_t a)
 {
